@@ -16,7 +16,7 @@
      backends on the same inputs on every check.
    * dtype: float32 / integer inputs are exactly representable reals, so over
      the reals there is nothing to prove; the rounding of float32 arithmetic
-     paths is found by the oracle only (and it does find it, see design.d). *)
+     paths is checked by the oracle only (it found it; since repaired, see design.d). *)
 From Coq Require Import Reals List Bool Arith.
 From Verif Require Import Scalar RInst NdIndex QuatKernels Conversions Quat QuatAlg RotArr
   C18Dask C18Nd C18Model C18NdP C18Alg C18Lazy.
@@ -49,21 +49,20 @@ Theorem C18_dask_vector_formula_scaled : forall (q : quat) (v : vec3),
 Proof. exact dq_rot_scaled. Qed.
 Print Assumptions C18_dask_vector_formula_scaled.
 
-(* FULL clause: lazy q*v = eager q*v for every quaternion.  It holds exactly
-   when |q| = 1 (or v = 0): *)
+(* the bare formula equals the eager q*v exactly when |q| = 1 (or v = 0) -- which
+   is why Quaternion.outer(Vector3d, lazy=True) must (and, since the repair, does)
+   hand self.unit to _outer_dask: *)
 Theorem C18_lazy_vector_equals_eager_iff : forall (q : quat) (v : vec3),
   q <> zq ROps ->
   (dq_rot ROps q v = qv_mul_builtin ROps q v <-> qnorm2 ROps q = 1 \/ v = zv ROps).
 Proof. exact dq_rot_eq_iff. Qed.
 Print Assumptions C18_lazy_vector_equals_eager_iff.
 
-(* ... so it is refuted for a bare non-unit Quaternion (witness q = 2, v = x) *)
-Theorem C18_quaternion_vector_outer_nonunit_refuted :
-  exists k sA sV (A : list quat) (V : list vec3),
-    (0 < k)%nat /\ length A = size sA /\ length V = size sV /\ Forall (fun q => q <> zq ROps) A /\
-    qv_outer_lazy ROps k sA sV A V <> qv_outer_eager ROps A V.
-Proof. exact qv_outer_lazy_nonunit_refuted. Qed.
-Print Assumptions C18_quaternion_vector_outer_nonunit_refuted.
+(* ... and on the normalised quaternion it IS the eager result, for every q <> 0 *)
+Theorem C18_dask_vector_formula_normalised : forall (q : quat) (v : vec3),
+  q <> zq ROps -> dq_rot ROps (qunit ROps q) v = qv_mul_builtin ROps q v.
+Proof. exact dq_rot_qunit. Qed.
+Print Assumptions C18_dask_vector_formula_normalised.
 
 (* the two formulas of Quaternion.__mul__(Vector3d) (numpy-quaternion branch:
    vector part of (q v) ~q ; built-in branch: qu_rotate_vec(q/|q|, v)) agree on
@@ -139,11 +138,13 @@ Theorem C18_quaternion_outer_lazy : forall k sA sB (A B : list quat),
 Proof. exact qq_outer_lazy_eq. Qed.
 Print Assumptions C18_quaternion_outer_lazy.
 
-Theorem C18_quaternion_vector_outer_lazy_unit : forall k sA sV (A : list quat) (V : list vec3),
-  (0 < k)%nat -> length A = size sA -> length V = size sV -> all_unitq A ->
+(* Quaternion.outer(Vector3d): FULL clause -- every non-zero quaternion, unit or not
+   (the zero quaternion has no eager result: rotate_vectors raises) *)
+Theorem C18_quaternion_vector_outer_lazy : forall k sA sV (A : list quat) (V : list vec3),
+  (0 < k)%nat -> length A = size sA -> length V = size sV -> Forall (fun q => q <> zq ROps) A ->
   qv_outer_lazy ROps k sA sV A V = qv_outer_eager ROps A V.
-Proof. exact qv_outer_lazy_unit. Qed.
-Print Assumptions C18_quaternion_vector_outer_lazy_unit.
+Proof. exact qv_outer_lazy_eq. Qed.
+Print Assumptions C18_quaternion_vector_outer_lazy.
 
 (* Rotation.outer(Rotation): values AND improper flags, no hypothesis on norms *)
 Theorem C18_rotation_outer_lazy : forall k sA sB (A B : list rot),
@@ -210,19 +211,19 @@ Print Assumptions C18_misorientation_distance_matrix.
 (* ====================== 4. Orientation.angle_with_outer / _dot_outer_dask ====================== *)
 
 (* what the lazy path returns, all shapes (any numbers of axes): indexed
-   self.shape ++ other.shape, element (i ++ j) = max_s |(other_j self_i^-1) . s|
-   with no improper flag looked at *)
+   self.shape ++ other.shape, element (i ++ j) = max over the symmetry elements s
+   that are improper exactly when the pair is (xor of the two flags) of
+   |(other_j self_i^-1) . s|, 0 if there is none *)
 Theorem C18_orientation_lazy_characterised : forall k ss so (X Y S : list rot) i j,
   (0 < k)%nat -> length X = size ss -> length Y = size so -> valid ss i -> valid so j ->
   let r := ori_dot_outer_lazy ROps k ss so X Y S in
   fst r = ss ++ so /\ length (snd r) = size (ss ++ so) /\
   aget 0 (ss ++ so) (snd r) (i ++ j)
-  = sym_dot_lazy ROps S (qmul ROps (fst (aget (zq ROps, false) so Y j))
-                                   (qconj ROps (fst (aget (zq ROps, false) ss X i)))).
+  = sym_dot_lazy ROps S (rmul ROps (aget (zq ROps, false) so Y j) (rinv ROps (aget (zq ROps, false) ss X i))).
 Proof. exact ori_lazy_char. Qed.
 Print Assumptions C18_orientation_lazy_characterised.
 
-(* what the eager path returns, all shapes: same layout, flags used *)
+(* what the eager path returns, all shapes: same layout, same selection, clipped at 1 *)
 Theorem C18_orientation_eager_characterised : forall ss so (X Y S : list rot) i j,
   length X = size ss -> length Y = size so -> valid ss i -> valid so j ->
   let r := ori_dot_outer_eager ROps ss so X Y S in
@@ -241,41 +242,41 @@ Theorem C18_angle_with_outer_layout : forall k ss so (X Y S : list rot),
 Proof. exact awo_layout. Qed.
 Print Assumptions C18_angle_with_outer_layout.
 
-(* for a PROPER pair the two symmetry reductions agree for every list of unit
-   symmetry elements, improper ones included (eager zeroes them, lazy filters them) *)
-Theorem C18_symmetry_reduction_proper_pair : forall (S : list rot) (m : quat),
-  qnorm2 ROps m = 1 -> Forall (fun s => qnorm2 ROps (fst s) = 1) S ->
-  sym_dot_eager ROps S (m, false) = sym_dot_lazy ROps S m.
-Proof. exact sym_dot_proper. Qed.
-Print Assumptions C18_symmetry_reduction_proper_pair.
+(* the two symmetry reductions agree for EVERY pair, proper or improper, and every
+   list of unit symmetry elements, proper or improper (eager: 0 where exactly one
+   of pair / element is improper, clip at 1; lazy: da.where on the same condition) *)
+Theorem C18_symmetry_reduction : forall (S : list rot) (m : rot),
+  qnorm2 ROps (fst m) = 1 -> Forall (fun s => qnorm2 ROps (fst s) = 1) S ->
+  sym_dot_eager ROps S m = sym_dot_lazy ROps S m.
+Proof. exact sym_dot_eq. Qed.
+Print Assumptions C18_symmetry_reduction.
 
-(* FULL clause: angle_with_outer(lazy=True) = angle_with_outer(lazy=False) for all operands.
-   REFUTED (improper flag of `other`): the lazy path never looks at the improper
-   flags of the orientations; an improper `other` under the group {1} gives
-   eager angle pi, lazy angle 0 *)
-Theorem C18_angle_with_outer_lazy_improper_refuted :
-  exists k ss so (X Y S : list rot),
-    (0 < k)%nat /\ length X = size ss /\ length Y = size so /\ all_unit X /\ all_unit Y /\ all_unit S /\
-    awo_lazy ROps k ss so X Y S <> awo_eager ROps ss so X Y S.
-Proof. exact awo_lazy_improper_refuted_arrays. Qed.
-Print Assumptions C18_angle_with_outer_lazy_improper_refuted.
-
-(* OUTSIDE THE FINDING (unit quaternions, no improper flag on `other`; flags of
-   self are dropped by both modes; symmetry elements proper or improper):
-   lazy = eager, shape and values, for every chunk size and every pair of shapes *)
-Theorem C18_angle_with_outer_outside_finding : forall k ss so (X Y S : list rot),
+(* FULL clause: angle_with_outer(lazy=True, chunk_size=k) = angle_with_outer(lazy=False),
+   shape and values, for every chunk size, every pair of shapes and ALL improper
+   flags on self, on other and on the symmetry elements (unit quaternions, which
+   Rotation.__init__ guarantees) *)
+Theorem C18_angle_with_outer_lazy : forall k ss so (X Y S : list rot),
   (0 < k)%nat -> length X = size ss -> length Y = size so ->
-  all_unit X -> all_unit Y -> all_unit S -> all_proper Y ->
+  all_unit X -> all_unit Y -> all_unit S ->
   awo_lazy ROps k ss so X Y S = awo_eager ROps ss so X Y S.
 Proof. exact awo_lazy_eq_eager. Qed.
-Print Assumptions C18_angle_with_outer_outside_finding.
+Print Assumptions C18_angle_with_outer_lazy.
 
-(* Orientation.get_distance_matrix(lazy) = angle_with_outer(self, self, lazy) *)
+(* Orientation.get_distance_matrix(lazy) = angle_with_outer(self, self, lazy), all flags *)
 Theorem C18_orientation_distance_matrix_lazy : forall k s (X S : list rot),
-  (0 < k)%nat -> length X = size s -> all_unit X -> all_unit S -> all_proper X ->
+  (0 < k)%nat -> length X = size s -> all_unit X -> all_unit S ->
   awo_lazy ROps k s s X X S = awo_eager ROps s s X X S.
 Proof. exact odm_lazy_eq_eager. Qed.
 Print Assumptions C18_orientation_distance_matrix_lazy.
+
+(* the flags are not idle: under the group {1} a pair with an improper `other`
+   is at angle pi in BOTH modes, a proper pair at angle 0 *)
+Theorem C18_angle_with_outer_improper_pair :
+  ang ROps (sym_dot_eager ROps [((1, 0, 0, 0), false)] ((1, 0, 0, 0), true)) = PI /\
+  ang ROps (sym_dot_lazy ROps [((1, 0, 0, 0), false)] ((1, 0, 0, 0), true)) = PI /\
+  ang ROps (sym_dot_lazy ROps [((1, 0, 0, 0), false)] ((1, 0, 0, 0), false)) = 0.
+Proof. exact awo_improper_pair_pi. Qed.
+Print Assumptions C18_angle_with_outer_improper_pair.
 
 (* ====================== 5. whole array vs element by element ====================== *)
 
